@@ -38,6 +38,7 @@ from vlib.core import Sub
 from vlib.core import Violation
 from vlib.core import check
 from vlib.core import expect_ok
+from vlib.core import innermost_repo_frame
 from vlib.gen import c17_models as G
 
 # Text round trip of a full-precision ``repr`` through pandas' default C float parser: the parser keeps 17 digits
@@ -290,7 +291,7 @@ def prop_model(case):
         try:
             c0, r0, p0 = _objective(model, params, data)
         except Exception as e:  # noqa: BLE001  (not a C17 matter: the original must be evaluable)
-            raise Discard(f"original model not evaluable: {type(e).__name__}") from e
+            raise Discard(f"original model not evaluable: {type(e).__name__} {str(e)[:60]} @ {innermost_repo_frame(e)}") from e
         if not np.isfinite(c0):
             raise Discard("original objective not finite")
         try:
